@@ -212,7 +212,8 @@ def run(ctx):
         if body is None:
             ctx.ob("R2", "walker closure", False, "closure calling produce_item not found in run_worker")
         else:
-            quits = [bi for bi in body.live_blocks for s in body.blocks[bi]["s"] if s[0] == "A" and s[1][0] == 0 and s[2][0] == "agg" and s[2][1].get("variant") == "Quit"]
+            body = prog.inlined(body)  # e.g. the send loop extracted into a private `send_items(&tx, items) -> WalkState`
+            quits = [bi for bi in body.live_blocks for s in body.blocks[bi]["s"] if s[0] == "A" and s[2][0] == "agg" and s[2][1].get("variant") == "Quit"]
             sends = [c for c in body.calls if c.name == "send"]
             prod = [c for c in body.calls if c.name == "produce_item"][0]
             filt = [c for c in body.calls if c.name == "filter_result"]
